@@ -1,6 +1,7 @@
 /-
   C05 — A note sounds exactly while its key, the pedal or sostenuto holds it.
-  (first instalment: the constants and the pure user-list operations the pedal logic is built from)
+  (the constants, the pure user-list operations the pedal logic is built from, and the statement's rules for one voice:
+  the decisions of noteUpdate/Upd_Off, killSustainingNotes and markSostenutoNotes, which the executable model calls)
 -/
 import OpnVerif.Model.Synth
 
@@ -45,5 +46,126 @@ theorem findOrCreateUser_spec (cc : ChipCh) (m k : Nat) :
     · refine ⟨fun _ => ?_, Or.inr rfl⟩
       simp [User.isLoc, newUser]
     · exact ⟨fun h => by simp at h, Or.inl rfl⟩
+
+
+/-! ## the rules of the statement, for one voice (decision logic of noteUpdate/Upd_Off, killSustainingNotes, markSostenutoNotes)
+
+Hold flags of a user: bit 1 = held by the sustain pedal, bit 2 = held by sostenuto; 0 = the key is down. -/
+
+/-- **note-off, no pedal, no sostenuto: the voice ends** — no user of that (channel, key) is left on the chip channel -/
+theorem key_release_ends_voice (cc : ChipCh) (m k : Nat) (u : User)
+    (hf : cc.users.find? (·.isLoc m k) = some u) (hs : u.sus / 2 % 2 = 0) :
+    ∀ v ∈ (offVoice false cc m k).1.users, ¬ (v.midCh = m ∧ v.key = k) := by
+  intro v hv
+  have : (offVoice false cc m k).1 = eraseUser cc m k := by
+    simp [offVoice, hf, hs]
+  rw [this] at hv
+  exact ((eraseUser_spec cc m k v).1 hv).2
+
+/-- … and the chip channel is reported silent exactly when that was its last user -/
+theorem key_release_silent_iff (cc : ChipCh) (m k : Nat) (u : User)
+    (hf : cc.users.find? (·.isLoc m k) = some u) (hs : u.sus / 2 % 2 = 0) :
+    (offVoice false cc m k).2 = (eraseUser cc m k).users.isEmpty := by
+  simp [offVoice, hf, hs]
+
+/-- **note-off while sostenuto holds the key: nothing changes** -/
+theorem key_release_sostenuto_holds (cc : ChipCh) (m k : Nat) (u : User)
+    (hf : cc.users.find? (·.isLoc m k) = some u) (hs : u.sus / 2 % 2 = 1) :
+    offVoice false cc m k = (cc, false) := by
+  simp [offVoice, hf, hs]
+
+theorem or_one_odd (n : Nat) : (n ||| 1) % 2 = 1 := by
+  exact (Nat.or_mod_two_eq_one (a := n) (b := 1)).2 (Or.inr rfl)
+
+/-- **note-off while the pedal is down: every user stays, the released one is marked pedal-held, the channel is not silenced** -/
+theorem key_release_pedal_holds (cc : ChipCh) (m k : Nat) (hp : cc.users.any (·.isLoc m k) = true) :
+    (offVoice true cc m k).2 = false ∧
+    (offVoice true cc m k).1.users.map (fun u => (u.midCh, u.key)) = cc.users.map (fun u => (u.midCh, u.key)) ∧
+    ∀ v ∈ (offVoice true cc m k).1.users, v.isLoc m k = true → v.sus % 2 = 1 := by
+  have hfc : findOrCreateUser cc m k = (cc, true) := by simp [findOrCreateUser, hp]
+  have hov : offVoice true cc m k = (modUser cc m k (fun d => { d with sus := d.sus ||| 1 }), false) := by
+    simp [offVoice, hfc]
+  rw [hov]
+  refine ⟨rfl, modUser_locs cc m k _ (fun u => ⟨rfl, rfl⟩), ?_⟩
+  intro v hv hl
+  simp only [modUser, List.mem_map] at hv
+  obtain ⟨u, _, rfl⟩ := hv
+  by_cases hu : u.isLoc m k = true
+  · simp only [hu, if_true]; exact or_one_odd _
+  · simp only [hu] at hl ⊢
+    simp at hl
+    exact absurd hl hu
+
+/-! ### ending the holds: killSustainingNotes per user -/
+
+/-- a key that is down (no hold flag) is never touched by the release of a pedal, a controller reset or panic's hold clearing -/
+theorem key_down_untouched (mc : Option Nat) (t : Nat) (u : User) (h : u.sus = 0) : killApplies mc t u = false := by
+  simp [killApplies, h]
+
+/-- the release of a pedal on one MIDI channel leaves the users of other MIDI channels alone -/
+theorem other_channel_untouched (m t : Nat) (u : User) (h : m ≠ u.midCh) : killApplies (some m) t u = false := by
+  simp [killApplies, h]
+
+/-- the flag arithmetic, for all flag values and all release kinds (1 pedal, 2 sostenuto, 3 both):
+    a release concerns a user iff it holds one of the released flags, and clears exactly those -/
+theorem release_table : ∀ s < 4, ∀ t < 4,
+    ((s &&& t) != 0) = (decide (s % 2 = 1 ∧ t % 2 = 1) || decide (s / 2 = 1 ∧ t / 2 = 1)) ∧
+    (s &&& (3 - t % 4)) % 2 = (if t % 2 = 1 then 0 else s % 2) ∧
+    (s &&& (3 - t % 4)) / 2 = (if t / 2 = 1 then 0 else s / 2) := by decide
+
+/-- **pedal release ends a pedal-only hold** (the user is then erased unless its key is down again) -/
+theorem pedal_release_ends_pedal_hold (u : User) (h : u.sus = 1) : killApplies (some u.midCh) 1 u = true ∧ susAfter 1 u = 0 := by
+  simp [killApplies, susAfter, h]
+
+/-- **pedal release keeps a note that sostenuto also holds** -/
+theorem pedal_release_keeps_sostenuto (u : User) (h : u.sus = 3) : killApplies (some u.midCh) 1 u = true ∧ susAfter 1 u = 2 := by
+  simp [killApplies, susAfter, h]
+
+/-- **sostenuto release ends a sostenuto-only hold and keeps a pedal hold** -/
+theorem sostenuto_release (u : User) : (u.sus = 2 → killApplies (some u.midCh) 2 u = true ∧ susAfter 2 u = 0) ∧
+    (u.sus = 3 → killApplies (some u.midCh) 2 u = true ∧ susAfter 2 u = 1) ∧ (u.sus = 1 → killApplies (some u.midCh) 2 u = false) := by
+  refine ⟨fun h => ?_, fun h => ?_, fun h => ?_⟩ <;> simp [killApplies, susAfter, h]
+
+/-- **Reset-All-Controllers, a controller-state reset and panic (release kind 3) end every hold** -/
+theorem reset_ends_all_holds (mc : Option Nat) (u : User) (hlt : u.sus < 4) (h : u.sus ≠ 0) (hm : mc = none ∨ mc = some u.midCh) :
+    killApplies mc 3 u = true ∧ susAfter 3 u = 0 := by
+  have : u.sus = 1 ∨ u.sus = 2 ∨ u.sus = 3 := by omega
+  rcases hm with rfl | rfl <;> rcases this with h | h | h <;> simp [killApplies, susAfter, h]
+
+/-- **the pedal cycle**: a key released under the pedal becomes pedal-held (flag 1), and the pedal's release then ends it -/
+theorem pedal_cycle (cc : ChipCh) (m k : Nat) (u : User) (hu : u ∈ cc.users) (hl : u.isLoc m k = true) (h0 : u.sus = 0) :
+    ∃ v ∈ (offVoice true cc m k).1.users, v.isLoc m k = true ∧ v.sus = 1 ∧ killApplies (some m) 1 v = true ∧ susAfter 1 v = 0 := by
+  have hp : cc.users.any (·.isLoc m k) = true := List.any_eq_true.2 ⟨u, hu, hl⟩
+  have hfc : findOrCreateUser cc m k = (cc, true) := by simp [findOrCreateUser, hp]
+  have hov : (offVoice true cc m k).1 = modUser cc m k (fun d => { d with sus := d.sus ||| 1 }) := by
+    simp [offVoice, hfc]
+  rw [hov]
+  refine ⟨{ u with sus := u.sus ||| 1 }, ?_, ?_, ?_, ?_, ?_⟩
+  · simp only [modUser, List.mem_map]
+    exact ⟨u, hu, by simp [hl]⟩
+  · simpa [User.isLoc] using hl
+  · simp [h0]
+  · have hm : u.midCh = m := by simp [User.isLoc] at hl; exact hl.1
+    simp [killApplies, h0, hm]
+  · simp [susAfter, h0]
+
+/-! ### sostenuto only catches the keys that are down when it is pressed -/
+
+/-- pressing sostenuto marks exactly the key-down users of that MIDI channel; pedal-held ones and other channels' users are unchanged,
+    and no user is added or removed (a key struck later gets a fresh user with flag 0: `noteUpdate`/Upd_Patch) -/
+theorem markSost_spec (m : Nat) (cc : ChipCh) :
+    (markSost m cc).users.length = cc.users.length ∧
+    ∀ i (h : i < cc.users.length), ((markSost m cc).users[i]?) =
+      some (if cc.users[i].midCh = m ∧ cc.users[i].sus = 0 then { cc.users[i] with sus := 2 } else cc.users[i]) := by
+  refine ⟨by simp [markSost], ?_⟩
+  intro i h
+  simp only [markSost, List.getElem?_map, List.getElem?_eq_getElem h, Option.map_some]
+  by_cases hc : cc.users[i].midCh = m ∧ cc.users[i].sus = 0
+  · simp [hc.1, hc.2]
+  · simp only [hc, if_false]
+    by_cases h1 : cc.users[i].midCh = m
+    · have : cc.users[i].sus ≠ 0 := fun h2 => hc ⟨h1, h2⟩
+      simp [h1, this]
+    · simp [h1]
 
 end Opn.C05
